@@ -1046,8 +1046,19 @@ func (ps *PeerState) ApplyCommitStepMessage(msg *CommitStepMessage) {
 		return
 	}
 
+	if !wellFormedBits(msg.BlockParts) || msg.BlockParts.Size() != msg.BlockPartsHeader.Total {
+		return // malformed: a part bit array must exist and match the header
+	}
+
 	ps.ProposalBlockPartsHeader = msg.BlockPartsHeader
 	ps.ProposalBlockParts = msg.BlockParts
+}
+
+// A BitArray decoded from a peer message is well formed if it is nil or its word slice
+// has exactly the length its bit count requires. The bit-array operations used by the
+// gossip routines (which run without recover) index out of range otherwise.
+func wellFormedBits(ba *gcmn.BitArray) bool {
+	return ba == nil || (ba.Bits > 0 && len(ba.Elems) == (ba.Bits+63)/64)
 }
 
 func (ps *PeerState) ApplyProposalPOLMessage(msg *ProposalPOLMessage) {
@@ -1058,6 +1069,10 @@ func (ps *PeerState) ApplyProposalPOLMessage(msg *ProposalPOLMessage) {
 		return
 	}
 	if ps.ProposalPOLRound != msg.ProposalPOLRound {
+		return
+	}
+
+	if !wellFormedBits(msg.ProposalPOL) {
 		return
 	}
 
@@ -1085,6 +1100,10 @@ func (ps *PeerState) ApplyHasVoteMessage(msg *HasVoteMessage) {
 func (ps *PeerState) ApplyVoteSetBitsMessage(msg *VoteSetBitsMessage, ourVotes *gcmn.BitArray) {
 	ps.mtx.Lock()
 	defer ps.mtx.Unlock()
+
+	if !wellFormedBits(msg.Votes) {
+		return
+	}
 
 	votes := ps.getVoteBitArray(msg.Height, msg.Round, msg.Type)
 	if votes != nil {
